@@ -135,6 +135,14 @@ def run_item(it):
                         if ka != kb or (ka == "ok" and (len(ra) != len(rb) or not all(same(a, b) for a, b in zip(ra, rb)))):
                             findings.append({"op": op, "backend": backend, "rule": "rearrange", "kind": "different-outcome",
                                              "detail": "axis named %r: einx.rearrange(%r) -> %s but einx.id -> %s" % (e, "".join(toks2), ka, kb)})
+                if p["opmap"] == "reject":
+                    # no unique default output: the documented outcome of the short form is SemanticError
+                    k1, r1 = outcome(lambda: call(op, p["short"], ins_short, backend, base["L"], {}))
+                    calls += 1
+                    if k1 not in ("exc:SemanticError", "notsupported"):      # a backend without element-wise operations says so first
+                        findings.append({"op": op, "backend": backend, "rule": p["kind"], "kind": "ambiguous-default-output-accepted",
+                                         "detail": "%r has no unique default output but the call ended with %s" % ("".join(p["short"]), k1)})
+                    continue
                 k1, r1 = outcome(lambda: call(op_short, p["short"], ins_short, backend, base["L"], kw_short))
                 k2, r2 = outcome(lambda: call(op, p["long"], [x.copy() for x in ins], backend, base["L"], {}))
                 if squeeze_out is not None and k2 == "ok":
